@@ -113,6 +113,10 @@ package checks
 //     recording rule; the plain "didn't have any series" report only when no such entry was found.
 //@ func SeriesCheck.Check [C16]
 //@   assumed callee-requires promapi.FailoverGroup.RangeQuery, promapi.Overlaps
+// (c) the per-rule dedupe only ever skips a selector whose full text was already handled: both the lookup and the
+//     recording in the `done` map are keyed by the text of the selector itself.
+//@   at lookup map#1 assert [C16] arg1 == pureCall("(*github.com/prometheus/prometheus/promql/parser.VectorSelector).String", selector)
+//@   at store mapupdate assert [C16] arg1 == pureCall("(*github.com/prometheus/prometheus/promql/parser.VectorSelector).String", selector)
 //@   ghost lastCount int
 //@   ghost countOK bool
 //@   after call instantSeriesCount set lastCount = result0
